@@ -394,7 +394,7 @@ class ConnSim(Sim):
                 self._advance_to_read_deadline()
                 return ['InitRead ITimeout']
             self._feed_fault(r)
-            return ['InitRead ' + {'eof': 'IEof', 'partial': 'IPartial', 'err': 'IReadErr'}[r]]
+            return ['InitRead ' + {'eof': 'IEof', 'partial': 'IPartial', 'err': 'IReadErr', 'lost': 'IReadErr'}[r]]
         if k == 'disc':
             c = self.cur()
             if c is None:
@@ -428,7 +428,7 @@ class ConnSim(Sim):
                 self._advance_to_read_deadline()
                 return ['ReaderGets XTimeout']
             self._feed_fault(x)
-            return ['ReaderGets ' + {'eof': 'XEof', 'partial': 'XPartial', 'err': 'XErr'}[x]]
+            return ['ReaderGets ' + {'eof': 'XEof', 'partial': 'XPartial', 'err': 'XErr', 'lost': 'XErr'}[x]]
         if k == 'tail_disc':
             # the last bytes of a frame arrive in the same loop iteration as a local disconnect(), in either order
             order = a[1]
@@ -532,6 +532,12 @@ class ConnSim(Sim):
         elif x == 'err':
             if not ep.client_closed:
                 ep.set_exception(ConnectionResetError('reset by peer'))
+        elif x == 'lost':
+            # the transport is lost (RST / broken pipe): asyncio's connection_lost(exc) closes the transport -- the writer is
+            # already closing when the client notices -- and wakes the reader with the exception
+            if not ep.client_closed:
+                ep.writer._closing = True
+                ep.set_exception(ConnectionResetError('connection lost'))
         else:
             raise ValueError(x)
 
